@@ -124,6 +124,25 @@ pub fn pool(seed: u64) -> Vec<Call> {
             }
         }
     }
+    // twin families: the same resolution and curve position on all 60 face x quintant combinations (hence on all six curve
+    // orientations), adjacent in the pool so that a history window draws them back to back
+    for (res, s) in [(6, 0x2du64), (9, 0x2d1b), (8, 0x2727), (12, 0x155_5555), (20, 0x3_0000_0003)] {
+        for k in 0..60u8 {
+            let id = encode(MCell::new(res, k / 5, k % 5, s & ((1u64 << (2 * (res - 1))) - 1)));
+            v.push(Call::CellToLonLat(id));
+            if k % 2 == 0 {
+                v.push(Call::Boundary { id, closed: false, segments: Some(1) });
+            }
+        }
+    }
+    // chain families: the same face, quintant and position NUMBER at a ladder of resolutions (s = 0 is the first-child chain)
+    for (k, s) in [(7u8, 0u64), (23, 7), (41, 0x2d), (58, 1)] {
+        for res in 3..=16 {
+            let id = encode(MCell::new(res, k / 5, k % 5, s));
+            v.push(Call::CellToLonLat(id));
+            v.push(Call::Boundary { id, closed: true, segments: None });
+        }
+    }
     for r in [-1, 0, 1, 7, 29] {
         v.push(Call::NumCells(r));
         v.push(Call::CellArea(r));
